@@ -52,6 +52,7 @@ func symPool(useOracle bool) (ammtypes.Pool, sdkmath.Int, sdkmath.Int, sdkmath.I
 // J1/X3 all-asset join: minted shares are at most pro-rata to what is actually used of every
 // asset (shares*L_i <= used_i*T), never more is used than offered, and therefore the per-share
 // backing of every asset does not decrease.
+//
 //vrf:cover join-ok
 //vrf:bound 2 assets; reserves, share supply and offered amounts unbounded positive
 func H_J1_AllAssetJoin() {
@@ -75,6 +76,7 @@ func H_J1_AllAssetJoin() {
 
 // X1/X3 all-asset exit: what is paid is at most the pro-rata claim of the exiting shares, every
 // reserve stays positive and not all shares can be burnt.
+//
 //vrf:cover exit-ok
 //vrf:bound 2 assets; reserves, supply, exiting shares unbounded positive
 func H_X1_AllAssetExit() {
@@ -97,6 +99,7 @@ func H_X1_AllAssetExit() {
 }
 
 // X2 join then exit of the minted shares returns at most what was used, per asset.
+//
 //vrf:cover roundtrip-ok
 //vrf:bound 2 assets; all amounts unbounded positive; real Pool.JoinPool (all-asset) then real Pool.ExitPool
 //vrf:assert-ms 120000
@@ -130,6 +133,7 @@ func sumWBF(a, b, c, d, e, f, g sdkmath.LegacyDec, params ammtypes.Params) sdkma
 
 // X4 oracle pool, single-asset exit through the real Pool.ExitPool: the book reserve drops by
 // exactly what is paid and stays positive.
+//
 //vrf:summary github.com/elys-network/elys/x/amm/types.GetWeightBreakingFee => sumWBF
 //vrf:cover exit-ok
 //vrf:bound oracle pool, 2 assets, symbolic oracle prices > 0, weight-breaking fee havocked in [0, 0.99]
@@ -153,4 +157,131 @@ func H_X4_OracleSingleAssetExit() {
 	vrf.Observe("paid", paid)
 	vrf.Assert(after.Equal(lu.Sub(paid)), "C05/C01: book reserve drops by exactly what is paid out")
 	vrf.Assert(after.IsPositive(), "X4: an exit never takes a reserve to zero")
+}
+
+// ---- J2: single-asset join of a constant-product pool ----
+
+var (
+	powCalls            int
+	memoB, memoE, memoR sdkmath.LegacyDec // the contract is a function: same arguments, same result
+	memoSet             bool
+)
+
+func e18i() sdkmath.Int { return sdkmath.NewIntWithDecimal(1, 18) }
+
+// mant: the 18-digit mantissa of a LegacyDec as an Int (exact)
+func mant(d sdkmath.LegacyDec) sdkmath.Int { return d.MulInt(e18i()).TruncateInt() }
+
+// contract of powerApproximation(b, e) for the fractional exponent of a single-asset join.
+// e = 1/2 (equal weights) takes LegacyDec.ApproxSqrt (Newton iteration on the 18-digit mantissa): the contract
+// admits every r within 1e-16 of the real square root ((R-100)^2 <= B*1e18 <= (R+100)^2 on mantissas). Other
+// fractional exponents get the Bernoulli enclosure of the real power within 1e-6. This is the "power
+// approximation's precision" allowance of the property's statement, taken as an assumption about the series
+// code (which loops on its input and is out of reach of the engine).
+func sumPowApprox(base, exp sdkmath.LegacyDec) (sdkmath.LegacyDec, error) {
+	if memoSet && base.Equal(memoB) && exp.Equal(memoE) {
+		return memoR, nil
+	}
+	powCalls++
+	r := vrf.Dec("powApprox" + string(rune('0'+powCalls)))
+	memoB, memoE, memoR, memoSet = base, exp, r, true
+	one := sdkmath.LegacyOneDec()
+	vrf.Assume(r.IsPositive())
+	if exp.Equal(sdkmath.LegacyNewDecWithPrec(5, 1)) {
+		R, B := mant(r), mant(base)
+		lo, hi := R.SubRaw(100), R.AddRaw(100)
+		vrf.Assume(lo.IsPositive())
+		vrf.Assume(lo.Mul(lo).LTE(B.Mul(e18i())))
+		vrf.Assume(hi.Mul(hi).GTE(B.Mul(e18i())))
+		return r, nil
+	}
+	tol := sdkmath.LegacyNewDecWithPrec(1, 6)
+	if base.GTE(one) {
+		x := base.Sub(one)
+		vrf.Assume(r.LTE(one.Add(exp.Mul(x)).Add(tol)))
+		vrf.Assume(r.Sub(one).Add(tol).Mul(base).GTE(exp.Mul(x)))
+	} else {
+		x := one.Sub(base)
+		vrf.Assume(r.LTE(one.Sub(exp.Mul(x)).Add(tol)))
+		vrf.Assume(one.Sub(r).Sub(tol).Mul(base).LTE(exp.Mul(x)))
+	}
+	return r, nil
+}
+
+// J2 single-asset join, equal weights, swap fee in [0, 2%]: the pool's invariant per share does not decrease,
+// counting only the fee-reduced deposit a' = a*(1 - fee/2) (the other half of the fee stays with the pool):
+// (T + s)^2 * L <= T^2 * (L + a'), up to the square root's precision (T*1e-15 + 2 share units).
+//
+//vrf:cover join-ok
+//vrf:summary-rr github.com/elys-network/elys/x/amm/types.powerApproximation => sumPowApprox
+//vrf:bound 2 assets, weights 1:1, constant-product pool; reserve and share supply symbolic <= 1e30, deposit <= 100 x reserve; fee in [0, 2%]; assumes ApproxSqrt is within 1e-16 of the real square root
+//vrf:assert-ms 120000
+func H_J2_SingleAssetJoin_1to1() {
+	pool, la, _, T := symPool(false)
+	j2(pool, la, T)
+}
+
+// J2 on a configuration set of (reserve, share supply) pairs, deposit and fee symbolic: the same obligations with
+// fewer symbolic factors, so that a violation is found (and confirmed against the real square root) quickly
+//
+//vrf:cover join-ok
+//vrf:summary-rr github.com/elys-network/elys/x/amm/types.powerApproximation => sumPowApprox
+//vrf:bound as J2 with (L, T) in {(1e12, 1e18), (1e6, 1e20), (3e9, 7e18)}; deposit in [1, 100*L], fee in [0, 2%]
+//vrf:assert-ms 60000
+func H_J2_SingleAssetJoin_Configs() {
+	cfgs := [][2]string{{"1000000000000", "1000000000000000000"}, {"1000000", "100000000000000000000"}, {"3000000000", "7000000000000000000"}}
+	i := vrf.I64("config", 0, int64(len(cfgs)-1))
+	for k := range cfgs {
+		if int64(k) != i {
+			continue
+		}
+		la, _ := sdkmath.NewIntFromString(cfgs[k][0])
+		T, _ := sdkmath.NewIntFromString(cfgs[k][1])
+		pool := mkPool(la, la, T, false)
+		j2(pool, la, T)
+		return
+	}
+}
+
+func j2(pool ammtypes.Pool, la, T sdkmath.Int) {
+	fee := vrf.Dec("fee")
+	vrf.Assume(!fee.IsNegative())
+	vrf.Assume(fee.LTE(sdkmath.LegacyNewDecWithPrec(2, 2)))
+	pool.PoolParams.SwapFee = fee
+	a := vrf.Int("inAtom")
+	vrf.Assume(a.IsPositive())
+	vrf.Assume(a.LTE(sdkmath.NewIntWithDecimal(1, 30)))
+	vrf.Assume(la.LTE(sdkmath.NewIntWithDecimal(1, 30)))
+	vrf.Assume(T.LTE(sdkmath.NewIntWithDecimal(1, 30)))
+	vrf.Assume(a.LTE(la.MulRaw(100))) // y <= 101
+	s, joined, err := pool.CalcSingleAssetJoinPoolShares(sdk.Coins{sdk.Coin{Denom: "uatom", Amount: a}})
+	if err != nil {
+		return
+	}
+	vrf.Cover("join-ok")
+	vrf.Observe("shares", s)
+	vrf.Assert(joined.AmountOf("uatom").Equal(a), "J2: exactly the offered amount is joined")
+	// Obligations (all on 18-digit mantissas, sized so that nothing overflows natively):
+	//   A1  (T + s - slack) * 1e18 <= T * (R - 1000)     the implementation mints at most T*(r - 1) shares, where
+	//                                                     r = Pow((L + a')/L, 1/2) is what the real Pow returns
+	//   A5  (R - 1000)^2 * L <= X * 1e18                  r (less 1000 ulp) is not above the true root of (L + a')/L
+	// Squaring A1 and multiplying by A5 gives (T + s - slack)^2 * L <= T^2 * (L + a'): the invariant per share
+	// does not decrease. slack = T*2e-15 + 2 share units covers the 1000 ulp taken off r.
+	slack := T.QuoRaw(500_000_000_000_000).AddRaw(2)
+	n := T.Add(s).Sub(slack)
+	E := e18i()
+	// the quantities the real code computed on the way, recomputed with the same operations (same operands give
+	// the same rounded results): y = (L + a')/L and r = y^(1/2)
+	half := sdkmath.LegacyOneDec().Quo(sdkmath.LegacyNewDec(2))
+	fr := sdkmath.LegacyOneDec().Sub(sdkmath.LegacyOneDec().Sub(half).Mul(fee))
+	ldec := sdkmath.LegacyNewDecFromInt(la)
+	after := sdkmath.LegacyNewDecFromInt(a).Mul(fr)
+	y := ldec.Add(after).Quo(ldec)
+	R, Y := mant(ammtypes.Pow(y, half)), mant(y)
+	X := mant(ldec.Add(after)) // mantissa of L + a'
+	rho := R.SubRaw(1000)
+	vrf.Assert(n.Mul(E).LTE(T.Mul(rho)), "J2 A1: minted shares <= T*(r - 1) up to the stated slack, r the real Pow of (L+a')/L (fee-reduced deposit)")
+	vrf.Lemma(rho.Mul(rho).LTE(Y.Mul(E).Sub(R.MulRaw(899))), "J2 lemma 3: (R-1000)^2 <= Y*1e18 - 899*R   [from (R-100)^2 <= Y*1e18]")
+	vrf.Lemma(Y.Mul(la).LTE(X.Add(la)), "J2 lemma 4: y = (L+a')/L rounded: Y*L <= X + L")
+	vrf.Assert(rho.Mul(rho).Mul(la).LTE(X.Mul(E)), "J2 A5: (r - 1000 ulp)^2 <= (L+a')/L, so A1 squared gives (T+s)^2*L <= T^2*(L+a') up to the slack")
 }
